@@ -30,6 +30,32 @@ def commit_effect(detail, committer_idx, committer_name, has_path):
     return rem, upd, add, path
 
 
+def placement_oracle(before, detail, after):
+    """The two sentences of C08 about placement, decided directly on the implementation's trees:
+    every leaf added by the commit sits in the leftmost slot that was blank when it was added
+    (removes first, then adds in the order of the commit, the tree growing when no slot is blank),
+    and the tree does not end in a blank node.  Returns a list of descriptions of what fails."""
+    out = []
+    if after and after[-1] == "_":
+        out.append("the tree ends in a blank node")
+    occupied = [n != "_" for n in before[0::2]]
+    for d in detail:
+        if d["k"] == "remove" and d["idx"] < len(occupied):
+            occupied[d["idx"]] = False
+    where = {n["L"]: i for i, n in enumerate(after[0::2]) if isinstance(n, dict) and "L" in n}
+    for d in detail:
+        if d["k"] != "add":
+            continue
+        slot = occupied.index(False) if False in occupied else len(occupied)
+        if slot == len(occupied):
+            occupied.append(True)
+        else:
+            occupied[slot] = True
+        if d["id"] in where and where[d["id"]] != slot:
+            out.append(f"new member {d['id']} was placed in leaf {where[d['id']]}, the leftmost blank leaf was {slot}")
+    return out
+
+
 def commits_of(script, recs):
     """Walk the records of a HistGen history: yield one entry per applied commit:
     dict(before=<committer's tree before>, info=<commit description>, commit_rec=<record of the
